@@ -18,8 +18,8 @@ PROPERTY = "C15"
 LEVEL = "exploration"
 RULE = (
     "create: method{linear,comoving,logspace} x closed x (zmin,zmax,num_bins){4} x unit{8} x scales{single,"
-    "3 overlapping} x rweight/resolution{4, incl. rweight=0.0} x cosmology{default name, instance, other name, CustomCosmology with D_A != D_C/(1+z), closed LambdaCDM instance; the last two are created after a decoy configuration with a sibling instance of the same class and other parameters}; "
-    "custom edges; invalid alphabet (non-increasing edges, rmin>=rmax, unknown method/unit/cosmology, "
+    "3 overlapping, 2 nested} x rweight/resolution{4, incl. rweight=0.0} x cosmology{default name, instance, other name, CustomCosmology with D_A != D_C/(1+z), closed LambdaCDM instance; the last two are created after a decoy configuration with a sibling instance of the same class and other parameters}; "
+    "custom edges; invalid alphabet (non-increasing edges, NaN edges, zmin/zmax NaN or inf, rmin>=rmax, unknown method/unit/cosmology, "
     "missing zmin/zmax/edges, length mismatch); modify: every single parameter value (incl. the falsy values zmin=0, zmax=0, num_bins=0, rweight=0) and every pair of "
     "parameter values on 9 base configurations vs create(**merged). Non-trivial: non-default cosmology or "
     "non-linear method or a modification that changes the edges/angles. Distinct: canonical JSON."
@@ -33,7 +33,7 @@ ASSUMPTIONS = [
 ]
 
 METHODS = ("linear", "comoving", "logspace")
-ZSPECS = ((0.1, 1.0, 3), (0.07, 1.3, 7), (0.01, 0.03, 2), (0.2, 0.5, 1))
+ZSPECS = ((0.1, 1.0, 3), (0.07, 1.3, 7), (0.0, 0.9, 2), (0.01, 0.03, 2), (0.2, 0.5, 1))
 UNIT_SCALES = {
     "kpc": (100.0, 1000.0), "Mpc": (0.1, 1.0), "rad": (0.001, 0.01), "deg": (0.1, 1.0),
     "arcmin": (1.0, 10.0), "arcsec": (10.0, 100.0), "kpc/h": (100.0, 1000.0), "Mpc/h": (0.1, 1.0),
@@ -44,29 +44,10 @@ COSMOS = ("Planck15", "inst:Planck15", "WMAP9", "custom", "curved")
 CUSTOM_EDGES = [0.1, 0.2, 0.5, 0.9]
 
 
-_TOY = []
-
-
 def _toy_class():
-    """One CustomCosmology subclass for all instances (two instances differ in their parameters only)."""
-    if not _TOY:
-        from yaw.cosmology import CustomCosmology
+    from vlib.toycosmo import Toy
 
-        class Toy(CustomCosmology):
-            def __init__(self, scale, curve):
-                self.scale, self.curve = scale, curve
-
-            def comoving_distance(self, z):
-                z = np.asarray(z, dtype=float)
-                return self.scale * z / (1.0 + self.curve * z)
-
-            def angular_diameter_distance(self, z):
-                z = np.asarray(z, dtype=float)
-                # deliberately not D_C/(1+z): the configured cosmology alone defines the physical scale
-                return self.comoving_distance(z) / (1.0 + z) / (1.0 + 0.1 * z)
-
-        _TOY.append(Toy)
-    return _TOY[0]
+    return Toy
 
 
 def cosmo_obj(tag):
@@ -104,6 +85,8 @@ def scales_for(unit, multi):
     lo, hi = UNIT_SCALES[unit]
     if not multi:
         return lo, hi
+    if multi == "nested":  # second scale nested inside the first: rmin ascending, rmax descending
+        return [lo, lo * 3.0], [lo * 12.0, lo * 6.0]
     return [lo * a for a, _ in MULTI], [lo * b for _, b in MULTI]
 
 
@@ -111,7 +94,9 @@ def cases(tier, seed):
     out = []
     zspecs = ZSPECS if tier == "thorough" else ZSPECS[:3]
     for method, closed, zs, unit, multi, rw, cosmo in itertools.product(
-            METHODS, ("right", "left"), zspecs, UNIT_SCALES, (False, True), RW, COSMOS):
+            METHODS, ("right", "left"), zspecs, UNIT_SCALES, (False, True, "nested"), RW, COSMOS):
+        if multi == "nested" and (tier != "thorough" and (method != "linear" or rw != RW[0])):
+            continue
         if tier != "thorough" and method == "comoving" and rw != RW[0] and multi:
             continue  # comoving bins cost ~10 ms each; scales/rweight do not interact with them
         rmin, rmax = scales_for(unit, multi)
@@ -128,6 +113,12 @@ def cases(tier, seed):
         ("non-increasing-edges", dict(rmin=100.0, rmax=1000.0, edges=[0.1, 0.3, 0.2])),
         ("repeated-edge", dict(rmin=100.0, rmax=1000.0, edges=[0.1, 0.2, 0.2, 0.4])),
         ("single-edge", dict(rmin=100.0, rmax=1000.0, edges=[0.1])),
+        ("nan-edge-first", dict(rmin=100.0, rmax=1000.0, edges=[float("nan"), 0.2, 0.3])),
+        ("nan-edge-middle", dict(rmin=100.0, rmax=1000.0, edges=[0.1, float("nan"), 0.3])),
+        ("nan-edge-last", dict(rmin=100.0, rmax=1000.0, edges=[0.1, 0.2, float("nan")])),
+        ("nan-zmin", dict(good, zmin=float("nan"))),
+        ("nan-zmax", dict(good, zmax=float("nan"))),
+        ("inf-zmax", dict(good, zmax=float("inf"))),
         ("rmin>rmax", dict(good, rmin=1000.0, rmax=100.0)),
         ("rmin==rmax", dict(good, rmin=100.0, rmax=100.0)),
         ("rmin>rmax-in-list", dict(good, rmin=[100.0, 500.0], rmax=[200.0, 400.0])),
